@@ -54,6 +54,7 @@ func search(r *mc.Run, build, sub string, mk func() system, unmerged, maxDepth, 
 	res := searchResult{complete: true}
 	start := time.Now()
 	var perTransition float64
+	prevN := 0 // the cost estimate is only trusted when the previous level was large enough
 	seen := map[string]struct{}{}
 	s0 := mk()
 	s0.reset()
@@ -85,7 +86,7 @@ func search(r *mc.Run, build, sub string, mk func() system, unmerged, maxDepth, 
 		// budget: a level is only started when, at the measured cost per transition, it fits
 		// into the soft budget; the search then stops at a whole-level boundary
 		predicted := time.Duration(float64(n) * perTransition)
-		if r.Expired() || (depth > 0 && time.Since(start)+predicted > softBudget(r)) {
+		if r.Expired() || (!r.Quick() && prevN >= 200 && time.Since(start)+predicted > softBudget(r)) {
 			res.complete = false
 			r.NotExhaustive(sub + ": time budget: stopped after complete depth " + itoa(depth) + " (next level has " + itoa(n) + " transitions)")
 			break
@@ -116,6 +117,7 @@ func search(r *mc.Run, build, sub string, mk func() system, unmerged, maxDepth, 
 		}
 		wg.Wait()
 		perTransition = float64(time.Since(levelStart)) / float64(n)
+		prevN = n
 		var next [][]string
 		for i := range results {
 			path, ev := frontier[i/len(evs)], evs[i%len(evs)]
@@ -150,10 +152,7 @@ func search(r *mc.Run, build, sub string, mk func() system, unmerged, maxDepth, 
 
 // softBudget bounds one sub-search (they all run concurrently).
 func softBudget(r *mc.Run) time.Duration {
-	if r.Quick() {
-		return 3 * time.Minute
-	}
-	return 11 * time.Minute
+	return 11 * time.Minute // thorough only; quick bounds are small and fixed
 }
 
 var (
